@@ -151,7 +151,7 @@ def valBody (ext : Ext) (b : B) : SVal → R B
       | .map p mm v offs ks vs => do
         let v' ← setValidity v (offs.length - 1) true
         let offs' ← duplicateLast offs
-        let (offs'', ks', vs') ← pushMapOps ext offs' ks vs ops
+        let (offs'', ks', vs') ← pushMapOps ext false offs' ks vs ops
         pure (.map p mm v' offs'' ks' vs')
       | .unknownVariant _ => fail "Unknown variant does not support serialize_map_start"
       | _ => notSupported "serialize_map_start"
